@@ -129,7 +129,10 @@ def intoC (E : Ext) (dyn : Val → Except Exc Val) : Conv → Val → Except Exc
   | .datetime _, v =>
     match v with
     | .opaque _ r => .ok (.str r)
-    | v => .ok (.str (pyStr E v))
+    | v =>
+      match v.dtIso with
+      | some r => .ok (.str r)                  -- `isoformat()` of an instance of a user subclass
+      | none => .ok (.str (pyStr E v))
   | .union cs, v => unionInto dyn (tryCs E cs) (intoCs E dyn cs) v
   | .tagged cs tag tagMap layout, v =>
     let tagVal : Except Exc Val := match v with
